@@ -1621,7 +1621,9 @@ def run_T(pid, tier, seed):
     small = [[["B", "R1", "E"], ["D0"]], [["B", "R1", "E"], ["F2"]], [["B", "R0", "E"], ["B", "R1", "E"]],
              [["B", "R1", "R2", "E"], ["D1", "F0"]], [["D0", "B", "E"], ["F1", "D1"]],
              # a thread whose describing function RAISED earlier calls a DAG / a function while another thread builds
-             [["B", "R2", "A", "D0"], ["B", "R1", "E"]], [["B", "A", "F1"], ["B", "R3", "E"]]]
+             [["B", "R2", "A", "D0"], ["B", "R1", "E"]], [["B", "A", "F1"], ["B", "R3", "E"]],
+             # an executor object called while another thread builds
+             [["B", "R1", "E"], ["X0"]], [["X1", "B", "R0", "E"], ["B", "R2", "E", "X0"]]]
     if tier == "thorough":
         small += [[["B", "R1", "E"], ["D0"], ["F3"]], [["B", "R1", "E", "D0"], ["D1", "B", "R2", "E"]],
                   [["B", "R0", "E"], ["F1"], ["B", "R2", "E"]]]
